@@ -93,7 +93,7 @@ ENUM_SPLIT = 4      # the enumeration is dealt to 4 kinds per data sign: kinds a
 
 
 def plan(tier):
-    m = 1 if tier == 'quick' else 10
+    m = 1 if tier == 'quick' else 30
     p = []
     for tag in (['enum'] if tier == 'quick' else ['enum', 'enum2']):
         for sign in ('positive', 'changing'):
